@@ -425,7 +425,7 @@ def compare(case, io, mo):
         return None
     if got[0] == 'return' and lo[0] == 'return':
         hi_list = hi[1] if hi[0] == 'return' else m['hi']
-        if is_prefix(lo[1], got[1]) and is_prefix(got[1], hi_list) and (hi[0] == 'return' or len(got[1]) <= case['raise'][0]):
+        if is_prefix(lo[1], got[1]) and is_prefix(got[1], hi_list) and (hi[0] == 'return' or not case.get('raise') or len(got[1]) <= case['raise'][0]):
             return None
         if not is_prefix(got[1], hi_list):
             return 'the result is not a prefix of what the model returns at the upper depth bound %d' % dhi
